@@ -114,7 +114,7 @@ def steady(draw):
                     {"at_ms": 0, "op": "sleep", "ms": int(ad * 5000) + 30}, {"at_ms": 0, "op": "shutdown"}])
     sc = {"phase": "steady", "runner": "service", "accept_delay": ad, "switchinterval": draw(switchinterval), "bound_s": BOUND, "linger_ms": 30,
           "payloads": payloads, "drivers": drivers, "expected": n_expected, "inside": inside, "post_service": post_service}
-    if draw(st.integers(0, 3)) == 0 and n_expected <= 30:
+    if draw(st.integers(0, 2)) == 0 and n_expected <= 30:
         # the harness owns the schedule inside the (small) submission paths: per-thread delays at every source line of the
         # runner modules make concurrent submitters interleave at line granularity
         sc["trace_delay"] = {"files": ["runners/asyncio_runner.py", "runners/trio_runner.py", "runners/thread_runner.py", "runners/meta_runner.py", "runners/service.py"],
